@@ -2294,3 +2294,5 @@ RS.explanation += ' (R5) first_word_is_keyword is evaluated path by path under t
 RS.explanation += ' (R6) after an unquoted backslash the escaped character is read with line continuation disabled, in every unit lexer.'
 RS.explanation += ' (R7) every Parser-driving FromStr rejects trailing text.'
 RS.explanation += ' (R3c) blanks that keep `a$ ()` and `( (` apart are printed.'
+RS.explanation += ' (R9) the recognisers of the forms that begin with `$` are found from the code (what the routine that consumes the `$` tries next; what produces a DollarSingleQuote unit) and each read they make of the character after the `$` - followed through peek_char and the None/false outcomes of consume_char_if/skip_if, and into lexer helpers - is made on the lexer they were given, never on the PlainLexer of disable_line_continuation().'
+RS.explanation += ' (R10) the text handed to every keyword-table lookup in yash-syntax (lexer token_id, printer first_word_is_keyword, helpers followed to their callers) is traced back to MaybeLiteral::to_string_if_literal / extend_literal of the whole Word; any other producer (source_string, a Location, the literal of one unit) is reported.'
